@@ -169,3 +169,35 @@ B("QoS 0 PUBLISH acknowledged", ["C06"],
   [(PS, "        if  response.qos == 0:\n", "        if  response.qos == 0:\n            reply = PUBACK()\n            reply.msgId = response.msgId\n            self.transport.write(reply.encode())\n")], {"C06": ["P1"]})
 N("write and deliver reordered in the QoS 1 branch", ["C06"],
   [(PS, '            self.transport.write(reply.encode())\n            self._deliver(response)\n        elif response.qos == 2:', '            self._deliver(response)\n            self.transport.write(reply.encode())\n        elif response.qos == 2:')])
+
+# ---------------------------------------------------------------- C07
+B("window test deleted", ["C07"],
+  [(PS, "        if len(self.factory.windowSubscribe[self.addr]) >= self._window:\n            raise MQTTWindowError(\"subscription requests exceeded limit\", self._window)\n", "")],
+  {"C07": ["S-WINDOW"]})
+B("window test with == (D12 re-introduced)", ["C07"],
+  [(PS, "        if len(self.factory.windowUnsubscribe[self.addr]) >= self._window:", "        if len(self.factory.windowUnsubscribe[self.addr]) == self._window:")], {"C07": ["S-WINDOW"]})
+B("topics sorted before encoding", ["C07"],
+  [(PS, "            self._checkSubscribe(request)\n", "            self._checkSubscribe(request)\n            request.topics = sorted(request.topics)\n")], {"C07": ["S-NORM"]})
+B("handleSUBACK calls back with the identifier", ["C07"],
+  [(PS, "            request.deferred.callback(response.granted)", "            request.deferred.callback(response.msgId)")], {"C07": ["S-ACK"]})
+B("handleUNSUBACK looks up the subscribe window", ["C07"],
+  [(PS, "            request = self.factory.windowUnsubscribe[self.addr][response.msgId]\n        except KeyError as e:", "            request = self.factory.windowSubscribe[self.addr][response.msgId]\n        except KeyError as e:")],
+  {"C07": ["R-LOOKUP", "S-ACK", "R-FIRE"]})
+B("resume without the subscribe loops (D16 re-introduced)", ["C07"],
+  [(PS, "        for _, request in self.factory.windowSubscribe[self.addr].items():\n            self._retrySubscribe(request, dup=True)\n", "")], {"C07": ["S-LIFE"]})
+B("purge without the subscribe windows", ["C07"],
+  [(PS, "        for window in (self.factory.windowSubscribe[self.addr], self.factory.windowUnsubscribe[self.addr]):", "        for window in ():")], {"C07": ["S-LIFE"]})
+B("subscribe with a constant identifier", ["C07"],
+  [(PS, "            self._checkSubscribe(request)\n            request.msgId = self.factory.makeId()", "            self._checkSubscribe(request)\n            request.msgId = 1")], {"C07": ["S-ID"]})
+B("unsubscribe writes twice", ["C07"],
+  [(PS, "        self._retryUnsubscribe(request, dup=False)\n        return  request.deferred", "        self._retryUnsubscribe(request, dup=False)\n        self.transport.write(bytes(request.encoded))\n        return  request.deferred")],
+  {"C07": ["S-FLOW"]})
+B("SUBACK handled without removing the request", ["C07"],
+  [(PS, "            del self.factory.windowSubscribe[self.addr][response.msgId]\n", "")], {"C07": ["R-FIRE"]})
+B("window guard compares the wrong window", ["C07"],
+  [(PS, "        if len(self.factory.windowSubscribe[self.addr]) >= self._window:", "        if len(self.factory.windowUnsubscribe[self.addr]) >= self._window:")], {"C07": ["S-WINDOW"]})
+N("handler local renamed", ["C07"],
+  [(PS, "            request = self.factory.windowSubscribe[self.addr][response.msgId]\n            del self.factory.windowSubscribe[self.addr][response.msgId]\n            request.alarm.cancel()\n            request.deferred.callback(response.granted)",
+    "            req = self.factory.windowSubscribe[self.addr][response.msgId]\n            del self.factory.windowSubscribe[self.addr][response.msgId]\n            req.alarm.cancel()\n            req.deferred.callback(response.granted)")])
+N("window guard written as not <", ["C07"],
+  [(PS, "        if len(self.factory.windowSubscribe[self.addr]) >= self._window:", "        if not len(self.factory.windowSubscribe[self.addr]) < self._window:")])
